@@ -26,6 +26,13 @@ static cll::opt<int> vread("vread", cll::desc("0 src 1 dst 2 any"), cll::init(0)
 static cll::opt<int> vreduce("vreduce", cll::desc("0 min 1 add 2 set 3 max"), cll::init(0));
 static cll::opt<bool> vbitset("vbitset", cll::desc("use update bitset"), cll::init(true));
 static cll::opt<bool> vtransposed("vtransposed", cll::desc("build the CSC (iterate in-edges) variant"), cll::init(false));
+// CuSP's own options (not reachable through DistBench): when -vreadpolicy >= 0 the non-transposed graph is
+// built by calling the partitioner directly with them
+static cll::opt<int> vreadpolicy("vreadpolicy", cll::desc("-1 DistBench defaults | 0 balanced masters 1 balanced edges of masters 2 balanced masters and edges"), cll::init(-1));
+static cll::opt<int> vnodeweight("vnodeweight", cll::init(0));
+static cll::opt<int> vedgeweight("vedgeweight", cll::init(0));
+static cll::opt<bool> vcuspsync("vcuspsync", cll::desc("synchronous master assignment phase"), cll::init(false));
+static cll::opt<int> vstaterounds("vstaterounds", cll::desc("rounds used to synchronise partitioning state"), cll::init(100));
 
 enum { CPU, GPU_CUDA };
 int personality = CPU;
@@ -147,6 +154,41 @@ static void dump_vals(Graph& graph, std::ofstream& f, const char* tag, int round
   f << "\n";
 }
 
+// the policy/input mapping of DistBench's loadDistGraph (iterate out-edges), with CuSP's remaining parameters exposed
+template <typename Policy>
+static std::unique_ptr<Graph> cusp_with_options(bool csc_input) {
+  return galois::cuspPartitionGraph<Policy, NodeData, uint32_t>(inputFile, csc_input ? galois::CUSP_CSC : galois::CUSP_CSR, galois::CUSP_CSR, false,
+                                                                inputFileTranspose, "", !vcuspsync, (uint32_t)vstaterounds,
+                                                                (galois::graphs::MASTERS_DISTRIBUTION)(int)vreadpolicy, (uint32_t)vnodeweight,
+                                                                (uint32_t)vedgeweight);
+}
+static std::unique_ptr<Graph> build_with_cusp_options() {
+  switch (partitionScheme) {
+  case OEC:
+    return cusp_with_options<NoCommunication>(false);
+  case IEC:
+    return cusp_with_options<NoCommunication>(true);
+  case HOVC:
+    return cusp_with_options<GenericHVC>(false);
+  case HIVC:
+    return cusp_with_options<GenericHVC>(true);
+  case CART_VCUT:
+    return cusp_with_options<GenericCVC>(false);
+  case CART_VCUT_IEC:
+    return cusp_with_options<GenericCVC>(true);
+  case GINGER_O:
+    return cusp_with_options<GingerP>(false);
+  case GINGER_I:
+    return cusp_with_options<GingerP>(true);
+  case FENNEL_O:
+    return cusp_with_options<FennelP>(false);
+  case FENNEL_I:
+    return cusp_with_options<FennelP>(true);
+  default:
+    return cusp_with_options<SugarP>(false);
+  }
+}
+
 int main(int argc, char** argv) {
   galois::DistMemSys G;
   DistBenchStart(argc, argv, "verif-dharness", "verification harness", nullptr);
@@ -160,7 +202,12 @@ int main(int argc, char** argv) {
     return 0;
   }
   std::unique_ptr<Graph> g;
-  std::tie(g, syncSubstrate) = distGraphInitialization<NodeData, uint32_t, true>();
+  if (vreadpolicy >= 0 && net.Num > 1) {
+    g             = build_with_cusp_options();
+    syncSubstrate = std::make_unique<galois::graphs::GluonSubstrate<Graph>>(*g, net.ID, net.Num, g->isTransposed(), g->cartesianGrid(), partitionAgnostic,
+                                                                            commMetadata);
+  } else
+    std::tie(g, syncSubstrate) = distGraphInitialization<NodeData, uint32_t, true>();
   Graph& graph = *g;
   if (vmode == "dump") {
     dump_graph(graph, net.ID, net.Num);
